@@ -2156,6 +2156,279 @@ theorem nSetText_inv (st : St) (path : List Nat) (kids : List Spec) (h : Inv st)
         · rw [kidsOK_eq]; exact hnew.1
         · intro g hg; rw [hnil] at hg; cases hg
 
+/-! ### the live tree alone: no hypothesis and no conclusion about dropped objects
+
+The findings C09-add-charset-adopts and C09-text-replace-keeps-parent only concern objects that are NOT in the tree.
+The following restatements show that the tree itself (nested kinds, links of every rule in it, ids) stays valid
+under those operations too. -/
+
+structure Live (st : St) : Prop where
+  kids : ∀ r ∈ st.rules, r.kidsOK = true
+  links : ∀ r ∈ st.rules, r.linksOK none true = true
+  ids : ∀ r ∈ st.rules, r.id < st.next
+
+theorem Inv.live {st : St} (h : Inv st) : Live st := ⟨h.kids, h.links, h.ids⟩
+
+/-- forgetting the dropped objects -/
+def St.forget (st : St) : St := { st with gone := [] }
+
+theorem live_forget_inv {st : St} (h : Live st) : Inv st.forget := by
+  refine ⟨h.kids, h.links, ?_, h.ids⟩
+  intro g hg
+  simp [St.forget] at hg
+
+theorem insertCore_forget (st : St) (dict : Dict) (r : Rule) (idx : Nat) (inOrder clean track : Bool) :
+    (insertCore st.forget dict r idx inOrder clean track).1.rules = (insertCore st dict r idx inOrder clean track).1.rules ∧
+    (insertCore st.forget dict r idx inOrder clean track).1.next = (insertCore st dict r idx inOrder clean track).1.next := by
+  unfold insertCore St.forget
+  dsimp only
+  split
+  · exact ⟨rfl, rfl⟩
+  · exact ⟨rfl, rfl⟩
+  · split
+    · split
+      · exact ⟨rfl, rfl⟩
+      · split
+        · split
+          · exact ⟨rfl, rfl⟩
+          · split <;> exact ⟨rfl, rfl⟩
+        · exact ⟨rfl, rfl⟩
+    · exact ⟨rfl, rfl⟩
+
+theorem insertCore_live (st : St) (dict : Dict) (r : Rule) (idx : Nat) (inOrder clean track : Bool)
+    (hk : ∀ x ∈ st.rules, x.kidsOK = true) (hl : ∀ x ∈ st.rules, x.linksOK none true = true)
+    (hlt : ∀ x ∈ st.rules, x.id < r.id) (hn : r.id < st.next)
+    (hrk : r.kidsOK = true) (hrl : r.linksOK none false = true) :
+    Live (insertCore st dict r idx inOrder clean track).1 := by
+  have h := insertCore_inv st.forget dict r idx inOrder clean false hk hl (by intro g hg; cases hg) hlt hn hrk hrl (by simp)
+  have hf := insertCore_forget st dict r idx inOrder clean false
+  have hf2 : (insertCore st dict r idx inOrder clean track).1.rules = (insertCore st dict r idx inOrder clean false).1.rules ∧
+      (insertCore st dict r idx inOrder clean track).1.next = (insertCore st dict r idx inOrder clean false).1.next := by
+    unfold insertCore
+    split
+    · exact ⟨rfl, rfl⟩
+    · exact ⟨rfl, rfl⟩
+    · split
+      · split
+        · exact ⟨rfl, rfl⟩
+        · split
+          · dsimp only
+            split
+            · exact ⟨rfl, rfl⟩
+            · split <;> exact ⟨rfl, rfl⟩
+          · exact ⟨rfl, rfl⟩
+      · exact ⟨rfl, rfl⟩
+  refine ⟨?_, ?_, ?_⟩
+  · rw [hf2.1, ← hf.1]; exact h.kids
+  · rw [hf2.1, ← hf.1]; exact h.links
+  · rw [hf2.1, hf2.2, ← hf.1, ← hf.2]; exact h.ids
+
+theorem insertRule_live (st : St) (s : Spec) (index : Option Int) (inOrder viaStr track : Bool) (h : Live st)
+    (hs : viaStr = true ∨ s.kidsOK = true) : Live (insertRule st s index inOrder viaStr track).1 := by
+  unfold insertRule
+  dsimp only
+  split
+  · split
+    · exact h
+    · split
+      · exact h
+      · exact h
+      · rename_i c hc
+        have hc' := parseCand_ok hc
+        refine insertCore_live { rules := st.rules, gone := st.gone, next := c.2, raising := st.raising }
+          _ _ _ _ _ _ h.kids h.links ?_ ?_ hc'.1 hc'.2.1
+        · intro x hx; rw [hc'.2.2.1]; exact h.ids x hx
+        · rw [hc'.2.2.1]; exact hc'.2.2.2
+  · rename_i hv
+    have hv' : viaStr = false := by simpa using hv
+    have hids : ∀ x ∈ st.rules, x.id < (Spec.inst none st.next s).2 :=
+      fun x hx => Nat.lt_trans (h.ids x hx) (inst_next none st.next s)
+    split
+    · exact ⟨h.kids, h.links, hids⟩
+    · split
+      · exact ⟨h.kids, h.links, hids⟩
+      · have hsk : s.kidsOK = true := by
+          rcases hs with hs | hs
+          · rw [hv'] at hs; cases hs
+          · exact hs
+        refine insertCore_live
+          { rules := st.rules, gone := st.gone, next := (Spec.inst none st.next s).2, raising := st.raising }
+          _ _ _ _ _ _ h.kids h.links ?_ ?_ (inst_kidsOK none st.next s hsk) (inst_linksOK none st.next s)
+        · intro x hx; rw [inst_id]; exact h.ids x hx
+        · rw [inst_id]; exact inst_next none st.next s
+
+theorem deleteRule_live (st : St) (i : Int) (h : Live st) : Live (deleteRule st i).1 := by
+  unfold deleteRule
+  split
+  · exact h
+  · rename_i n _
+    split
+    · exact h
+    · split
+      · exact h
+      · have hsub : (st.rules.eraseIdx n).Sublist st.rules := List.eraseIdx_sublist _ _
+        exact ⟨fun x hx => h.kids x (hsub.subset hx), fun x hx => h.links x (hsub.subset hx),
+          fun x hx => h.ids x (hsub.subset hx)⟩
+
+theorem setEncoding_live (st : St) (e : Cps) (valid : Bool) (h : Live st) : Live (setEncoding st e valid).1 := by
+  have hfresh : Live ((if e.isEmpty = true then (st, Outcome.none)
+      else if (!valid) = true then (st, logError st.raising .syntaxErr)
+      else ((insertRule st ⟨.charset, [], [], e, [], []⟩ (some 0) false false false).1,
+        match (insertRule st ⟨.charset, [], [], e, [], []⟩ (some 0) false false false).2 with
+        | .ok _ => Outcome.none
+        | o => o)) : St × Outcome).1 := by
+    split
+    · exact h
+    · split
+      · exact h
+      · exact insertRule_live st _ _ false false false h (Or.inr (by simp [Spec.kidsOK, Spec.kidsOKL]))
+  unfold setEncoding
+  dsimp only
+  split
+  · exact hfresh
+  · rename_i r rest hr
+    split
+    · split
+      · split
+        · refine ⟨?_, ?_, ?_⟩
+          · intro x hx
+            rcases List.mem_cons.mp hx with hx | hx
+            · rw [hx, enc_kidsOK]; exact h.kids r (by simp [hr])
+            · exact h.kids x (by simp [hr, hx])
+          · intro x hx
+            rcases List.mem_cons.mp hx with hx | hx
+            · rw [hx, enc_linksOK]; exact h.links r (by simp [hr])
+            · exact h.links x (by simp [hr, hx])
+          · intro x hx
+            rcases List.mem_cons.mp hx with hx | hx
+            · rw [hx]; exact h.ids r (by simp [hr])
+            · exact h.ids x (by simp [hr, hx])
+        · exact h
+      · exact deleteRule_live st 0 h
+    · exact hfresh
+
+theorem nsDel_live (st : St) (p : Cps) (h : Live st) : Live (nsDel st p).1 := by
+  unfold nsDel
+  split
+  · exact deleteRule_live st _ h
+  · exact h
+
+theorem nsSet_live (st : St) (p u : Cps) (h : Live st) : Live (nsSet st p u).1 := by
+  unfold nsSet
+  split
+  · exact insertRule_live st _ none true false false h (Or.inr (by simp [Spec.kidsOK, Spec.kidsOKL]))
+  · split
+    · exact h
+    · split <;> exact h
+
+/-- an accepted `sheet.cssText = …` always builds a valid tree — on any sheet -/
+theorem setText_live (st : St) (specs : List Spec) (h : Live st) : Live (setText st specs).1 := by
+  unfold setText
+  split
+  · exact h
+  · rename_i p hp
+    have hacc := (parseTop_accOK hp (by intro x hx; cases hx)).1
+    have hsub := cleanNamespaces_sublist p.acc
+    exact ⟨fun x hx => (hacc x (hsub.subset hx)).1, fun x hx => (hacc x (hsub.subset hx)).2.1,
+      fun x hx => (hacc x (hsub.subset hx)).2.2⟩
+
+theorem live_setPath {st : St} (h : Live st) (path : List Nat) (c c0 : Rule) (n : Nat) (g : List Rule)
+    (h0 : atPath st.rules path = some c0) (hk : c.kind = c0.kind) (hid : c.id = c0.id) (hpss : c.pss = c0.pss)
+    (hpr : c.prule = c0.prule) (hkids : c.kidsOK = true) (hlinks : Rule.linksOKL (some c.id) c.kids = true)
+    (hn : st.next ≤ n) :
+    Live { rules := setPath st.rules c path, gone := g, next := n, raising := st.raising } := by
+  have := inv_setPath (live_forget_inv h) path c c0 n [] h0 hk hid hpss hpr hkids hlinks
+    (by intro g hg; cases hg) hn
+  exact ⟨this.kids, this.links, this.ids⟩
+
+theorem nInsert_live (st : St) (path : List Nat) (s : Spec) (index : Option Int) (viaStr : Bool) (h : Live st)
+    (hs : viaStr = true ∨ s.kidsOK = true)
+    (hreg : ∀ c, atPath st.rules path = some c →
+      containerRejects c.kind s.kind = false → allowedIn c.kind s.kind = true) :
+    Live (nInsert st path s index viaStr).1 := by
+  have hi := live_forget_inv h
+  unfold nInsert
+  split
+  · exact h
+  · rename_i c hc
+    have hck := atPath_kidsOK _ _ _ _ (inv_top_allOK hi) hc
+    have hcl := atPath_linksOK _ _ _ _ _ (inv_top_linksAll hi) hc
+    split
+    · exact h
+    · split
+      · split
+        · exact h
+        · split
+          · exact h
+          · exact h
+          · rename_i i hi'
+            have hi'' := parseCand_ok hi'
+            have hhead := cInsert_header st.raising c i.1 index true
+            have hl := cInsert_links st.raising c i.1 index true hcl hi''.2.1
+            exact live_setPath h path _ c _ _ hc (cInsert_kind _ _ _ _ _) hhead.1 hhead.2.1 hhead.2.2
+              (cInsert_kidsOK _ _ _ _ _ hck hi''.1 (by rw [parseCand_kind hi']; exact hreg c hc)) hl.1
+              (Nat.le_of_lt hi''.2.2.2)
+      · rename_i hv
+        have hsk : s.kidsOK = true := by
+          rcases hs with hs | hs
+          · exact absurd hs hv
+          · exact hs
+        have hhead := cInsert_header st.raising c (Spec.inst none st.next s).1 index false
+        have hl := cInsert_links st.raising c (Spec.inst none st.next s).1 index false hcl (inst_linksOK none st.next s)
+        exact live_setPath h path _ c _ _ hc (cInsert_kind _ _ _ _ _) hhead.1 hhead.2.1 hhead.2.2
+          (cInsert_kidsOK _ _ _ _ _ hck (inst_kidsOK none st.next s hsk) (by rw [inst_kind]; exact hreg c hc)) hl.1
+          (Nat.le_of_lt (inst_next none st.next s))
+
+theorem nDelete_live (st : St) (path : List Nat) (i : Int) (h : Live st) : Live (nDelete st path i).1 := by
+  have := nDelete_inv st.forget path i (live_forget_inv h)
+  have hr : (nDelete st.forget path i).1.rules = (nDelete st path i).1.rules ∧
+      (nDelete st.forget path i).1.next = (nDelete st path i).1.next := by
+    unfold nDelete St.forget
+    dsimp only
+    split
+    · exact ⟨rfl, rfl⟩
+    · split <;> exact ⟨rfl, rfl⟩
+  exact ⟨by rw [← hr.1]; exact this.kids, by rw [← hr.1]; exact this.links, by rw [← hr.1, ← hr.2]; exact this.ids⟩
+
+/-- an accepted `container.cssText = …` always builds a valid list — whatever the container held -/
+theorem nSetText_live (st : St) (path : List Nat) (kids : List Spec) (h : Live st) :
+    Live (nSetText st path kids).1 := by
+  have hi := live_forget_inv h
+  unfold nSetText
+  split
+  · exact h
+  · rename_i c hc
+    have hck := atPath_kidsOK _ _ _ _ (inv_top_allOK hi) hc
+    have hcl := atPath_linksOK _ _ _ _ _ (inv_top_linksAll hi) hc
+    split
+    · exact h
+    · rename_i hcont
+      have hcont' : isContainer c = true := by simpa using hcont
+      unfold cSetText
+      dsimp only
+      split
+      · have := live_setPath h path c c st.next (st.gone ++ []) hc rfl rfl rfl rfl hck hcl (Nat.le_refl _)
+        exact this
+      · rename_i ks hks
+        have hnew : Rule.kidsOKL c.kind ks.1 = true ∧ Rule.linksOKL (some c.id) ks.1 = true ∧ st.next ≤ ks.2 := by
+          split at hks
+          · rename_i hm
+            rw [hm]
+            exact ⟨(parseMediaKids_ok _ _ _ _ _ ks hks).1, (parseMediaKids_ok _ _ _ _ _ ks hks).2,
+              parseMediaKids_next _ _ _ _ _ ks hks⟩
+          · rename_i hm
+            have hp : c.kind = .page := by
+              unfold isContainer at hcont'
+              simp only [Bool.or_eq_true, decide_eq_true_eq] at hcont'
+              rcases hcont' with h' | h'
+              · exact absurd h' hm
+              · exact h'
+            rw [hp]
+            exact ⟨(parsePageKids_ok _ _ _ _ ks hks).1, (parsePageKids_ok _ _ _ _ ks hks).2,
+              parsePageKids_next _ _ _ _ ks hks⟩
+        refine live_setPath h path _ c _ _ hc rfl rfl rfl rfl ?_ hnew.2.1 hnew.2.2
+        rw [kidsOK_eq]; exact hnew.1
+
 theorem validB_iff (st : St) : validB st = true ↔ Valid st := by
   unfold validB
   simp only [Bool.and_eq_true, decide_eq_true_eq, List.all_eq_true]
